@@ -42,6 +42,9 @@ COV_msan=""
 COV_tsan=""
 SAN_cli="-O1 -g -fsanitize=address,undefined -fno-sanitize-recover=all"
 
+# wrapper TUs: quiet, except for what a refactored static function would cause
+WSTRICT="-Wno-everything -Werror=implicit-function-declaration -Werror=incompatible-pointer-types -Werror=incompatible-function-pointer-types -Werror=int-conversion -Werror=return-type"
+
 LIBSRC="system cabd chmd kwajd szddd oabd lzxd qtmd mszipd lzssd crc32"
 WRAPPED=" cabd chmd kwajd lzxd mszipd crc32 "
 HSRC="harness sys ops prim"
@@ -55,7 +58,7 @@ lib_tu() {
   local v=$1 n=$2 san cov
   eval "san=\$SAN_$v; cov=\$COV_$v"
   if [[ "$WRAPPED" == *" $n "* ]]; then
-    if $CC $san $cov $LIBDEFS -w -c "$HERE/w_$n.c" -o "$OBJ/$v/$n.o" 2>"$OBJ/$v/$n.log"; then
+    if $CC $san $cov $LIBDEFS $WSTRICT -c "$HERE/w_$n.c" -o "$OBJ/$v/$n.o" 2>"$OBJ/$v/$n.log"; then
       return 0
     fi
     {
@@ -77,7 +80,7 @@ harness_tu() {
 cx_tu() {
   local v=$1 san
   eval "san=\$SAN_$v"
-  if $CC $san $LIBDEFS $CXDEFS -w -c "$HERE/w_cabextract.c" -o "$OBJ/$v/cx.o" 2>"$OBJ/$v/cx.log" &&
+  if $CC $san $LIBDEFS $CXDEFS $WSTRICT -c "$HERE/w_cabextract.c" -o "$OBJ/$v/cx.o" 2>"$OBJ/$v/cx.log" &&
      $CC $san $LIBDEFS $CXDEFS -w -c "$CX/md5.c" -o "$OBJ/$v/cxmd5.o" 2>>"$OBJ/$v/cx.log"; then
     return 0
   fi
